@@ -7,8 +7,8 @@ package main
 // "plain" / "cb" (kv defaults: int keys, string values, LWW; cb adds OnConflictMerged).
 
 import (
-	"math"
 	"encoding/json"
+	"math"
 	"bufio"
 	"context"
 	"fmt"
@@ -93,6 +93,12 @@ func (w *l1world) cfg() kv.Config {
 		}
 		if w.mode == "cb" {
 			c.OnConflictMerged = func(key, v1, v2 interface{}) error { w.conflicts++; return nil }
+		}
+		if w.mode == "json" {
+			// a custom node marshaler: what is reloaded from storage went through JSON (a tombstone's
+			// empty value comes back as a typed zero, not nil)
+			c.CustomMarshal = json.Marshal
+			c.CustomUnmarshal = json.Unmarshal
 		}
 		return c
 	}
@@ -249,6 +255,7 @@ type kop struct {
 	pval          int64
 	faults        []faultSpec
 	scripted      bool // part of a script: no random fault is added
+	bf            int  // open with this configured branch factor instead of the world's (op "openbf")
 }
 
 // a fault aimed at the occ-th request of one kind on one prefix (optionally one object)
@@ -368,7 +375,7 @@ func (w *l1world) exec(op *kop, hstats map[string]int) (known string, ok bool) {
 	out := w.out
 	var o tw
 	db := w.hs[op.h]
-	needsH := op.kind != "open" && op.kind != "list" && op.kind != "recover"
+	needsH := op.kind != "open" && op.kind != "openbf" && op.kind != "list" && op.kind != "recover"
 	if needsH && db == nil {
 		return "", false
 	}
@@ -378,7 +385,7 @@ func (w *l1world) exec(op *kop, hstats map[string]int) (known string, ok bool) {
 	w.installFaults(op.faults, &o)
 	defer func() { w.s3.plan = nil }()
 	switch op.kind {
-	case "open":
+	case "open", "openbf":
 		opts := kv.OpenOptions{ReadOnly: op.ro}
 		if op.only != nil {
 			for _, c := range op.only {
@@ -392,7 +399,17 @@ func (w *l1world) exec(op *kop, hstats map[string]int) (known string, ok bool) {
 		w.s3.resetLog()
 		var ndb *kv.DB
 		var err error
-		panicked := catch(func() { ndb, err = kv.Open(ctx, w.s3, w.cfg(), opts, time.Unix(0, op.when)) })
+		ocfg := w.cfg()
+		if op.kind == "openbf" {
+			// the client configures another branch factor: it only applies to a table that has no
+			// version yet (a stored tree keeps the branch factor it was written with)
+			if w.mode == "rows" {
+				ocfg = s3db.VerifKVConfig("fake", "b", l1Prefix, op.bf, 0)
+			} else {
+				ocfg.BranchFactor = uint(op.bf)
+			}
+		}
+		panicked := catch(func() { ndb, err = kv.Open(ctx, w.s3, ocfg, opts, time.Unix(0, op.when)) })
 		out.s(";")
 		if panicked {
 			out.s("panic")
@@ -408,11 +425,14 @@ func (w *l1world) exec(op *kop, hstats map[string]int) (known string, ok bool) {
 			// C13: a read-only open sends no PUT and no DELETE, whatever it merges
 			out.s("RO:" + strconv.Itoa(w.mutReqs))
 		}
-		o.s("open")
+		o.s(op.kind)
 		o.i(op.h)
 		o.b(op.ro)
 		o.z(op.when)
 		o.z(op.seed)
+		if op.kind == "openbf" {
+			o.i(op.bf)
+		}
 		if op.only != nil {
 			o.i(len(op.only))
 			for _, c := range op.only {
@@ -1076,6 +1096,33 @@ func runL1History(g *gen, mode string, nops int, hstats map[string]int, faulty, 
 			&kop{kind: "delhist", h: hM, before: t(2)}, &kop{kind: "list"})
 		hstats["script_fork"]++
 	}
+	if crashy && mode != "rows" && len(script) == 0 && g.r.Intn(3) == 0 {
+		// a table emptied and committed (an empty current version), then opened by a client that
+		// configures ANOTHER branch factor, which writes and commits — with a crash at every point of
+		// that commit: old and new version may both be current afterwards and every later open must
+		// still be able to merge them (the stored branch factor stays what it was)
+		h0, h1 := nextH, nextH+1
+		nextH += 2
+		script = append(script, &kop{kind: "open", h: h0, when: baseTime - 4000000000, seed: g.r.Int63n(1000000), scripted: true})
+		for i, k := range keys {
+			script = append(script, &kop{kind: "set", h: h0, key: k, when: baseTime + int64(i%8)*10, pval: int64(g.r.Intn(50)), scripted: true})
+		}
+		script = append(script, &kop{kind: "commit", h: h0, scripted: true})
+		for _, k := range keys {
+			script = append(script, &kop{kind: "tomb", h: h0, key: k, when: baseTime + 90, scripted: true})
+		}
+		nbf := []int{4, 16, 4096}[g.r.Intn(3)]
+		if nbf == bf {
+			nbf = 8
+		}
+		script = append(script, &kop{kind: "rmtomb", h: h0, before: baseTime + 95, scripted: true}, &kop{kind: "commit", h: h0, scripted: true},
+			&kop{kind: "openbf", h: h1, bf: nbf, when: baseTime - 3000000000, seed: g.r.Int63n(1000000), scripted: true},
+			&kop{kind: "set", h: h1, key: keys[0], when: baseTime + 200, pval: 77, scripted: true},
+			&kop{kind: "ccommit", h: h1, seed: g.r.Int63n(1000000), scripted: true},
+			&kop{kind: "list", scripted: true})
+		ending = true // the history is this script
+		hstats["script_empty_version_other_branch_factor"]++
+	}
 	if faulty && mode != "rows" && len(script) == 0 && g.r.Intn(3) == 0 {
 		// history deletion interrupted at its first node DELETE, then retried: a handle commits three
 		// times (two superseded versions with nodes of their own), deletes all history — the first
@@ -1219,7 +1266,7 @@ func runL1History(g *gen, mode string, nops int, hstats map[string]int, faulty, 
 			op.kind = "cvacuum"
 			op.seed = g.r.Int63n(1000000)
 		}
-		if op.kind == "rmtomb" && w.crashy {
+		if op.kind == "rmtomb" && w.crashy && !op.scripted {
 			// purging tombstones voids "a successor contains its parents" (documented
 			// precondition of RemoveTombstones); purges are the subject of C09/C10
 			op.kind = "dump"
@@ -1356,7 +1403,7 @@ func runL1History(g *gen, mode string, nops int, hstats map[string]int, faulty, 
 			live = []int{op.h}
 			known = nil
 		}
-		if ok && op.kind == "open" {
+		if ok && (op.kind == "open" || op.kind == "openbf") {
 			live = append(live, op.h)
 		}
 		if ok && op.kind == "clone" {
